@@ -175,7 +175,9 @@ def exhaustive(ctx, stats):
 ALPHABET = list("ab_- 1$.²ªµǅⅧ٣") + ["\t", "\n", "́", " ", "‍", "ﬁ", "K", "é", "日", "\U0001d400", "·"]
 POOL = sorted(set(keyword.kwlist) | set(dir(object)) | {"_dict", "__dict__", "__weakref__", "__module__",
                                                           "__slots__", "__class__", "properties", "default",
-                                                          "inline", "self", "None_", "class_", "blank", ""})
+                                                          "inline", "self", "None_", "class_", "blank", "", "__debug__",
+                                                          "__annotations__", "__qualname__", "__name__", "__mro__",
+                                                          "__bases__", "__builtins__", "__file__", "__spec__"})
 def _fullwidth(word, i):
     j = i % len(word)
     c = word[j]
@@ -244,7 +246,9 @@ def gen_cases(draw):
         base = draw(st.sampled_from(["Foo", "foo", "my title", "a1b"]))
         fam = [base, base, base + "_1", base + " 1", base.upper(), base + "_2", base + "_1_1", base + "_\uff11",
                base + "_\u0663", base + "_1\u00b2", base + "_\uff11_1"]
-        return {"kind": kind, "titles": draw(st.lists(st.sampled_from(fam), min_size=2, max_size=4))}
+        ts = draw(st.lists(st.sampled_from(fam), min_size=2, max_size=4))
+        # ... some of them written as "type": ["object"] (the same schema, another route through the parser)
+        return {"kind": kind, "titles": ts, "type_lists": [draw(st.booleans()) for _ in ts]}
     if draw(st.integers(0, 4)) == 0:
         # two same-titled objects whose only difference is a pair of JSON names that look alike to
         # sloppy comparisons ("" vs "blank" share the attribute name; the JSON names differ)
@@ -421,7 +425,8 @@ def predicate(case, stats):
     # titles: one document, several object schemas
     titles = case["titles"]
     schema = {"type": "object", "title": "Root", "properties": {
-        "p%d" % i: {"type": "object", "title": t, "properties": {"q%d" % i: {"type": "string"}}}
+        "p%d" % i: {"type": (["object"] if (case.get("type_lists") or [])[i:i + 1] == [True] else "object"), "title": t,
+                    "properties": {"q%d" % i: {"type": "string"}}}
         for i, t in enumerate(titles)}}
     stats.case("t:" + canon(titles), True, ["gen:titles"], sample={"titles": titles})
     usable = [t for t in titles if t]
